@@ -796,9 +796,13 @@ def c10n(ctx):
     painted *after* the polygon with the hole, or the hole wipes it out.  The parts are painted in an order that puts enclosing polygons
     first: sorted by the size of their extent, largest first"""
     fn = ctx.fn('mapproxy/image/mask.py:image_mask_from_geom')
+    # where a polygon is painted: the call of the local painter, or (painter written out) the exterior drawn with draw.polygon
     draws = [x for x in fn.walk() if is_call(x, 'draw_polygon')]
     if not draws:
-        raise Undecided('image_mask_from_geom: draw_polygon calls not found')
+        draws = [x for x in fn.walk() if isinstance(x, ast.Call) and isinstance(x.func, ast.Attribute) and x.func.attr == 'polygon' and
+                 contains(x, lambda y: isinstance(y, ast.Attribute) and y.attr == 'exterior')]
+    if not draws:
+        raise Undecided('image_mask_from_geom: no polygon is painted')
     ok = True
     for x in draws:
         loop = enclosing(x, ast.For)
